@@ -215,8 +215,24 @@ class Machine:
 			step = to_int(self.expr(e[3], env, guard))
 			self.premise(step != bv(0), guard)
 			return ('bool', z3.If(step > bv(0), var < stop, var > stop))
+		if k in ('and', 'or') and self.lang == 'py':
+			# Python: `x and y` / `x or y` yield one of the operands (its value, not its truth value)
+			vals = []
+			g = guard
+			for sub in e[1]:
+				v = self.expr(sub, env, g)
+				vals.append(v)
+				t = to_bool(v)
+				g = z3.And(g, t) if k == 'and' else z3.And(g, z3.Not(t))
+			if any(v[0] != 'bool' for v in vals):
+				self.tag('boolop-value', z3.BoolVal(False), guard)
+			res = vals[-1]
+			for v in reversed(vals[:-1]):
+				t = to_bool(v)
+				res = self.merge(z3.Not(t) if k == 'and' else t, v, res)
+			return res
 		if k in ('and', 'or'):
-			# operands are bool typed by construction of the generator; short circuit matters for premises only
+			# C++ && / ||: a bool; short circuit matters for premises only
 			acc = None
 			g = guard
 			for sub in e[1]:
@@ -258,6 +274,12 @@ class Machine:
 				raise Unsupported('list literal longer than the bound')
 			vals = [to_int(self.expr(x, env, guard)) for x in e[1]]
 			return ('list', (bv(len(vals)), vals + [bv(0)] * (CAP - len(vals))))
+		if k == 'listfill':
+			v = to_int(self.expr(e[1], env, guard))
+			cv = self.expr(e[2], env, guard)
+			count = narrow(cv[1]) if cv[0] == 'size' else to_int(cv)
+			self.premise(z3.And(count >= bv(0), count <= bv(CAP)), guard)
+			return ('list', (count, [v] * CAP))
 		if k == 'listcomp':
 			# python only: [elt for var in iter if cond]; the comprehension variable does not leak
 			_, elt, var, it, cond = e
